@@ -12,7 +12,7 @@ pub fn def() -> PropertyDef {
     PropertyDef {
         id: "C05",
         level: "exploration",
-        scenarios: vec![Box::new(CallHistory), Box::new(Invariance), Box::new(SamplerHistory)],
+        scenarios: vec![Box::new(CallHistory), Box::new(Invariance), Box::new(SamplerHistory), Box::new(PanicFault)],
         assumptions: vec!["the Conditional is the harness's recording stub: every call (index, given) is logged and every returned value is unique, so each write is attributable to one call"],
     }
 }
@@ -112,6 +112,8 @@ fn call_history<S: GElt + ndarray::LinalgScalar>(p: &Value, ws: bool) -> Outcome
     let cond = RecCond { tag: 1, log: log.clone(), calls: 0 };
     let init: Vec<S> = (0..d).map(|j| S::of(9000 + j as u64)).collect();
     let mut chain = GibbsMarkovChain::new(cond, &init);
+    // the chain's seed is an input too (pub field): special values incl. the largest
+    chain.seed = pu(p, "chain_seed");
     let mut before: Vec<f64> = init.iter().map(|x| x.f()).collect();
     let mut h = 0u64;
     for _ in 0..steps {
@@ -145,7 +147,8 @@ impl Scenario for CallHistory {
         tier.pick(6000, 400_000)
     }
     fn generate(&self, g: &mut Gen, _t: Tier, _i: u64) -> Value {
-        json!({"elt": *g.pick(&["f64", "f64", "f32", "i32", "usize"]), "d": g.usize(1, 64), "steps": g.usize(1, 20)})
+        let cs = crate::props::c07::special_seed(g, 4);
+        json!({"elt": *g.pick(&["f64", "f64", "f32", "i32", "usize"]), "d": g.usize(1, 64), "steps": g.usize(1, 20), "chain_seed": cs.to_string()})
     }
     fn execute(&self, p: &Value, ws: bool) -> Outcome {
         match ps(p, "elt") {
@@ -310,18 +313,20 @@ impl Scenario for SamplerHistory {
     }
     fn generate(&self, g: &mut Gen, _t: Tier, _i: u64) -> Value {
         let nc = g.usize(1, 16);
-        json!({"n_chains": nc, "d": g.usize(1, 12), "n_collect": g.usize(1, 8), "n_discard": g.usize(0, 5), "sim": gen_sim(g, nc + 1, false)})
+        let ss = crate::props::c07::special_seed(g, nc);
+        json!({"n_chains": nc, "d": g.usize(1, 12), "n_collect": g.usize(1, 8), "n_discard": g.usize(0, 5), "sampler_seed": ss.to_string(), "sim": gen_sim(g, nc + 1, false)})
     }
     fn execute(&self, p: &Value, ws: bool) -> Outcome {
         let mut o = Outcome::default();
         let (nc, d, ncol, ndis) = (pus(p, "n_chains"), pus(p, "d"), pus(p, "n_collect"), pus(p, "n_discard"));
         let log = Arc::new(Mutex::new(vec![]));
         let log2 = log.clone();
+        let sseed = pu(p, "sampler_seed");
         let cfg = sim_cfg(&p["sim"]);
         let (rep, out) = run_sim(&cfg, move || {
             let cond = RecCond { tag: 0, log: log2.clone(), calls: 0 };
             let init: Vec<Vec<f64>> = (0..nc).map(|c| (0..d).map(|j| 9000.0 + (c * 100 + j) as f64).collect()).collect();
-            let mut s = GibbsSampler::new(cond, init);
+            let mut s = GibbsSampler::new(cond, init).set_seed(sseed);
             for (c, ch) in s.chains.iter_mut().enumerate() {
                 ch.target.tag = c as u64 + 1;
             }
@@ -393,5 +398,117 @@ impl Scenario for SamplerHistory {
     }
     fn components(&self) -> Value {
         json!({"real": ["GibbsSampler", "GibbsMarkovChain::step", "ChainRunner::run"], "stub": ["recording Conditional", "pool = simulated workers"]})
+    }
+}
+
+// ---- fault: the user's conditional panics in the middle of a sweep ----------------------------
+/// recording conditional that panics at its `fail_at`-th call (once)
+#[derive(Clone)]
+struct FaultyCond {
+    log: Arc<Mutex<Vec<(u64, usize, Vec<f64>, f64)>>>,
+    calls: u64,
+    fail_at: u64,
+}
+impl Conditional<f64> for FaultyCond {
+    fn sample(&mut self, index: usize, given: &[f64]) -> f64 {
+        self.calls += 1;
+        if self.calls == self.fail_at {
+            panic!("VERIF-INJECTED conditional failure");
+        }
+        let v = 0.5 + self.calls as f64;
+        self.log.lock().unwrap().push((1, index, given.to_vec(), v));
+        v
+    }
+}
+struct PanicFault;
+impl Scenario for PanicFault {
+    fn name(&self) -> &'static str {
+        "gibbs_conditional_panics"
+    }
+    fn runs(&self, tier: Tier) -> u64 {
+        tier.pick(1500, 100_000)
+    }
+    fn generate(&self, g: &mut Gen, _t: Tier, _i: u64) -> Value {
+        let d = g.usize(1, 16);
+        let before = g.usize(0, 3);
+        json!({"d": d, "steps_before": before, "fail_call": g.usize(1, d), "steps_after": g.usize(1, 4)})
+    }
+    fn execute(&self, p: &Value, ws: bool) -> Outcome {
+        // the chain survives a panicking user callback (caught by the caller, as in a worker-thread join):
+        // coordinates refreshed before the failure hold their new values, everything else is unchanged,
+        // and later steps are ordinary full sweeps
+        let mut o = Outcome::default();
+        let (d, sb, fc, sa) = (pus(p, "d"), pus(p, "steps_before"), pus(p, "fail_call"), pus(p, "steps_after"));
+        let log = Arc::new(Mutex::new(vec![]));
+        let cond = FaultyCond { log: log.clone(), calls: 0, fail_at: (sb * d + fc) as u64 };
+        let init: Vec<f64> = (0..d).map(|j| 9000.0 + j as f64).collect();
+        let mut chain = GibbsMarkovChain::new(cond, &init);
+        let mut before = init.clone();
+        for _ in 0..sb {
+            log.lock().unwrap().clear();
+            chain.step();
+            let calls = log.lock().unwrap().clone();
+            check_step(&mut o, d, &before, &calls, &chain.current_state, "GibbsMarkovChain::step");
+            before = chain.current_state.clone();
+        }
+        log.lock().unwrap().clear();
+        let _ = mcmc_sim::sim::take_last_panic();
+        let r = std::panic::catch_unwind(std::panic::AssertUnwindSafe(|| {
+            chain.step();
+        }));
+        o.count("fault_conditional_panicked", r.is_err() as u64);
+        if r.is_ok() {
+            o.harness_error = Some("injected conditional failure did not fire".into());
+            return o;
+        }
+        let msg = mcmc_sim::sim::take_last_panic().unwrap_or_default();
+        if !msg.contains("VERIF-INJECTED") {
+            o.violate("panic", "GibbsMarkovChain::step:other-panic", format!("a different panic than the injected one: {msg}"));
+            return o;
+        }
+        let calls = log.lock().unwrap().clone();
+        let mut model = before.clone();
+        for (_, idx, _, ret) in &calls {
+            if *idx < d {
+                model[*idx] = *ret;
+            }
+        }
+        let now = chain.current_state.clone();
+        if now.len() != d || now.iter().zip(model.iter()).any(|(a, b)| a.to_bits() != b.to_bits()) {
+            o.violate("state_after_fault", "GibbsMarkovChain::step:state-after-conditional-failure", format!("after the conditional failed at call {fc} of the sweep the state is {now:?}; refreshed coordinates should hold their new values and the others stay: {model:?}"));
+            return o;
+        }
+        before = now;
+        for _ in 0..sa {
+            log.lock().unwrap().clear();
+            chain.step();
+            let calls = log.lock().unwrap().clone();
+            check_step(&mut o, d, &before, &calls, &chain.current_state, "GibbsMarkovChain::step(after-fault)");
+            before = chain.current_state.clone();
+            o.work += 1;
+        }
+        o.hash = str_hash(&p.to_string());
+        o.nontrivial = true;
+        if ws {
+            o.sample = Some(json!({"d": d, "failed_at_call_of_sweep": fc, "state_after_fault": before}));
+        }
+        o
+    }
+    fn shrink(&self, p: &Value) -> Vec<Value> {
+        let mut out = vec![];
+        shrink_int(p, "steps_before", 0, &mut out);
+        shrink_int(p, "steps_after", 1, &mut out);
+        shrink_int(p, "fail_call", 1, &mut out);
+        let d = pu(p, "d");
+        if d > 1 && pu(p, "fail_call") <= d - 1 {
+            out.push(with(p, "d", json!(d - 1)));
+        }
+        out
+    }
+    fn rule(&self) -> &'static str {
+        "fault = the user's conditional panics at call k of a sweep (every k in 1..d reachable), the panic is caught by the caller; afterwards the state must hold the new values of the coordinates refreshed before the failure and the old values elsewhere, and 1..4 further steps must be ordinary sweeps; distinct = parameter hash"
+    }
+    fn components(&self) -> Value {
+        json!({"real": ["GibbsMarkovChain::step"], "stub": ["Conditional = recording stub with an injected failure"]})
     }
 }
